@@ -180,6 +180,23 @@ def oracle(obs: Any, postprocessed: bool = True) -> List[Dict[str, Any]]:
                 if b is not None and o['mro'].count(b) != 1:
                     fails.append({'code': 'D1', 'obj': i, 'what': 'mro of %s contains its base %s %d times'
                                   % (nm(i), nm(b), o['mro'].count(b))})
+    # D0: 'base of' is what the class statement says, read in the scope of the class itself: the object standing for the
+    # base expression at position k is a class that the expression denotes in the scope the class is defined in (when
+    # the statement was visited, or once the whole project is analysed); it is resolved whenever the expression denotes
+    # a class there -- whatever other class's linearisation happened to be computed first ("in any interleaving")
+    for i in classes:
+        o = objs[i]
+        sc = o.get('base_scope')
+        if sc is None or o['bases'] is None or len(sc) != len(o['bases']):
+            continue
+        for pos, ((expr, first, now), b) in enumerate(zip(sc, o['bases'])):
+            allowed = [x for x in (first, now) if x is not None]
+            if (b is None and allowed) or (b is not None and b not in allowed):
+                fails.append({'code': 'D0', 'obj': i, 'pos': pos,
+                              'what': 'base %r of %s is %s, but in the scope of the class (%s) that expression denotes %s'
+                              % (expr, nm(i), 'unresolved' if b is None else nm(b),
+                                 'no parent' if o['parent'] is None else nm(o['parent']),
+                                 ' / '.join(nm(x) for x in allowed) if allowed else 'no class')})
     # D2: 'subclass of' is the exact inverse of 'base of'
     allcls = [i for i, o in enumerate(objs) if o['cls'] == 'Class' and (i in seen)] if postprocessed else []
     for b in allcls:
@@ -581,6 +598,96 @@ class ProjGen:
                 'order': rng.choice(['given', 'given', 'sorted', 'reversed'])}
 
 
+def hierarchy_family() -> List[Dict[str, Any]]:
+    """Exhaustive small family: a class Mid whose base is named through an import cycle (so it may be unresolved when
+    the class statement is visited), the base's module, and a module with a subclass Leaf of Mid in which the local
+    name of Mid's base means something else (an unrelated class / a non-class / nothing / the same class); every order
+    of analysis of the three modules, both import styles, import before or after the definition."""
+    out: List[Dict[str, Any]] = []
+    for order in itertools.permutations(['la', 'lb', 'lc']):
+        for binding in ('class', 'none', 'value', 'same', 'nested'):
+            for style in ('module', 'name'):
+                for cyc in ('top', 'bottom', 'nocycle'):
+                    leaf = {'module': 'import lc\n', 'name': 'from lc import Mid\n'}[style]
+                    leaf += {'class': 'class Base:\n    "unrelated"\n', 'none': '', 'value': 'Base = 1\n',
+                             'same': 'from lb import Base\n',
+                             'nested': 'class Outer:\n    class Base:\n        pass\n'}[binding]
+                    leaf += 'class Leaf(%s):\n    pass\n' % ('lc.Mid' if style == 'module' else 'Mid')
+                    base = 'class Base:\n    "the real base"\n'
+                    if cyc == 'top':
+                        base = 'from lc import Mid\n' + base
+                    elif cyc == 'bottom':
+                        base = base + 'from lc import Mid\n'
+                    mid = 'from lb import Base\nclass Mid(Base):\n    pass\n'
+                    files = {'la': leaf, 'lb': base, 'lc': mid}
+                    out.append({'files': [['%s.py' % m, files[m]] for m in sorted(files)],
+                                'add': ['%s.py' % m for m in order], 'strings': [], 'order': 'given'})
+    return out
+
+
+class HierGen:
+    """Random flat projects about the class hierarchy only: few modules, few class names shared between the modules
+    (so one local name means different classes in different modules), imports between the modules in both styles and
+    at both ends of a module (cycles leave bases unresolved when the class statement is visited), bases named by a
+    local / imported name or through the module, random order of analysis."""
+    def __init__(self, rng: Any):
+        self.rng = rng
+
+    def project(self) -> Dict[str, Any]:
+        rng = self.rng
+        mods = ['h%d' % i for i in range(rng.randint(2, 4))]
+        pool = ['Base', 'Mid', 'Leaf', 'A'][:rng.randint(2, 4)]
+        defs = {m: rng.sample(pool, rng.randint(1, len(pool))) for m in mods}
+        # the hierarchy is acyclic (Python rejects the others; cycles are C05's subject): a base expression is used only
+        # if everything it can denote -- when the class statement is visited or at the end -- comes earlier in `rank`
+        pairs = [(m, n) for m in mods for n in defs[m]]
+        rng.shuffle(pairs)
+        rank = {p: k for k, p in enumerate(pairs)}
+        files: Dict[str, str] = {}
+        for m in mods:
+            head: List[str] = []
+            tail: List[str] = []
+            body: List[str] = []
+            env: Dict[str, Any] = {}          # expression -> (module, class) it denotes when a class statement is visited
+            late: Dict[str, Any] = {}         # bound by an import at the end of the module
+            others = [x for x in mods if x != m]
+            imported: List[str] = []
+            for x in rng.sample(others, rng.randint(1, len(others))):
+                at_head = rng.random() < 0.7
+                if rng.random() < 0.5:
+                    free = [n for n in defs[x] if n not in defs[m] and n not in imported]
+                    if not free:
+                        continue
+                    n = rng.choice(free)
+                    imported.append(n)
+                    (head if at_head else tail).append('from %s import %s' % (x, n))
+                    (env if at_head else late)[n] = (x, n)
+                else:
+                    (head if at_head else tail).append('import %s' % x)
+                    for n in defs[x]:
+                        (env if at_head else late)['%s.%s' % (x, n)] = (x, n)
+            final = dict(env)
+            final.update({n: (m, n) for n in defs[m]})
+            final.update(late)
+            for n in defs[m]:
+                cands = [e for e in sorted(set(env) | set(late))
+                         if all(d is None or rank[d] < rank[(m, n)] for d in (env.get(e), final.get(e)))
+                         and (env.get(e) or final.get(e))]
+                bases = rng.sample(cands, min(len(cands), rng.choice([0, 1, 1, 1, 2])))
+                # most derived first: an order of bases that C3 accepts
+                bases.sort(key=lambda e: -max(rank[d] for d in (env.get(e), final.get(e)) if d is not None))
+                body.append('class %s%s:\n    pass' % (n, '(%s)' % ', '.join(bases) if bases else ''))
+                env[n] = (m, n)
+            unbound = [n for n in pool if n not in final]
+            if unbound and rng.random() < 0.2:
+                body.insert(rng.randint(0, len(body)), '%s = 1' % rng.choice(unbound))
+            files[m] = '\n'.join(head + body + tail) + '\n'
+        add = list(mods)
+        rng.shuffle(add)
+        return {'files': [['%s.py' % m, files[m]] for m in mods], 'add': ['%s.py' % m for m in add], 'strings': [],
+                'order': 'given'}
+
+
 CORPUS_PROJECTS: List[Dict[str, Any]] = [
     # two modules of one qualified name under different parents: a dotted file / directory next to a nested module
     {'files': [['p/__init__.py', ''], ['p/a/__init__.py', ''], ['p/a/b.py', 'def f(): pass\n'], ['p/a.b.py', 'x = 1\n']],
@@ -750,7 +857,11 @@ class Check(PropertyCheck):
             'histories of <= 40 operations (incl. SetBases, PostProcess, unguarded parents, "a 0"-style and summary-page '
             'names); non-trivial = the history takes the duplicate branch of addObject/_addUnprocessedModule or performs a '
             'successful reparent; (ii) generated source projects through the real builder; non-trivial = at least one '
-            'handleDuplicate or reparent happened; distinct by construction (i) / by source text (ii)')
+            'handleDuplicate or reparent happened; plus the exhaustive family hierarchy_family() (a class whose base is named '
+            'through an import cycle, a subclass in a module where that local name means an unrelated class / a value / nothing / '
+            'the same class, every order of analysis, both import styles) and random acyclic multi-module hierarchies with '
+            'class names shared between modules (HierGen), judged by the oracle incl. D0: every base is what the base '
+            'expression denotes in the scope of the class itself; distinct by construction (i) / by source text (ii)')
     trusted_base = [
         'Coq 8.16.1 kernel (coqc; vm_compute for the _refuted witnesses and Examples; no native_compute)',
         'no axioms (Print Assumptions: Closed under the global context for every theorem)',
@@ -874,6 +985,18 @@ class Check(PropertyCheck):
                 continue
             seen.add(k)
             cases.append(p)
+        fam = hierarchy_family()
+        self.stats['projects_hierarchy_family'] = len(fam)
+        cases.extend(fam)
+        h = HierGen(self.rng)
+        nh = 300 if self.tier == 'quick' else 6000
+        while nh > 0:
+            p = h.project()
+            k = json.dumps(p, sort_keys=True)
+            if k not in seen:
+                seen.add(k)
+                cases.append(p)
+            nh -= 1
         self.stats['projects'] = len(cases)
         return cases
 
@@ -894,6 +1017,8 @@ class Check(PropertyCheck):
                 self.count('distinct_nontrivial_projects')
             if any(o['implementedby'] for o in obs['objects']):
                 self.count('projects_with_interfaces')
+            if any(first is None and now is not None for o in obs['objects'] for _, first, now in (o.get('base_scope') or [])):
+                self.count('projects_base_resolved_late')
             out.extend(self.group(oracle(obs), obs, c))
         return out
 
